@@ -21,10 +21,10 @@ def main(path, repo="/repo"):
         r = loader.load(repo, symbolic=False)
         mod = importlib.import_module("gsv.contracts." + doc["property"].lower())
         obs = {o.id: o for o in mod.obligations(r, doc["tier"], doc["seed"])}
-        res = numrun.run_one(obs[doc["obligation"]], r, fi["point"], 0)
+        res = numrun.run_one(obs[doc["obligation"]], r, fi["point"], 0, typed=fi.get("typed"))
     except ImportError:
         from gsv import runner
-        out = runner.run_numeric(doc["property"], doc["tier"], doc["seed"], repo, [doc["obligation"]], 1, "replay", witness=fi["point"])
+        out = runner.run_numeric(doc["property"], doc["tier"], doc["seed"], repo, [doc["obligation"]], 1, "replay", witness=fi["point"], typed=fi.get("typed"))
         res = (out.get("results", {}).get(doc["obligation"], {}).get("failed_points") or [None])[0] or {"goals": []}
     if res is None:
         print("point rejected by the preconditions")
